@@ -7,10 +7,12 @@ import (
 	"fmt"
 	"math/rand"
 	"net/http"
+	"net/http/httptest"
 	"os"
 	"runtime"
 	"sort"
 	"strconv"
+	"sync"
 	"sync/atomic"
 	"time"
 
@@ -183,6 +185,115 @@ func runC05Case(run *ev.Run, cs c05Case) {
 	}
 }
 
+// spyRT wraps a real http.Transport: per sequence number it records the first
+// entry and the total time spent inside the transport (all redirect hops).
+type spyRT struct {
+	base  time.Time
+	inner http.RoundTripper
+	mu    sync.Mutex
+	first map[uint64]time.Duration
+	total map[uint64]time.Duration
+	last  map[uint64]time.Duration
+}
+
+func (s *spyRT) RoundTrip(req *http.Request) (*http.Response, error) {
+	seq, _ := strconv.ParseUint(req.Header.Get("X-Vegeta-Seq"), 10, 64)
+	te := time.Since(s.base)
+	resp, err := s.inner.RoundTrip(req)
+	tx := time.Since(s.base)
+	s.mu.Lock()
+	if _, ok := s.first[seq]; !ok {
+		s.first[seq] = te
+	}
+	s.total[seq] += tx - te
+	s.last[seq] = tx
+	s.mu.Unlock()
+	return resp, err
+}
+
+type c05RealCase struct {
+	Workers   uint64 `json:"workers"`
+	MaxConns  int    `json:"max_conns_per_host"`
+	Hits      int    `json:"hits"`
+	HandlerUs int    `json:"handler_delay_us"`
+	Redirects int    `json:"redirect_hops"`
+	KeepAlive bool   `json:"keepalive"`
+}
+
+// runC05Real checks the latency clauses against a real http.Transport and a
+// loopback server: connection-pool queueing, dialling and redirect hops all
+// happen inside the transport and must be covered by the latency.
+func runC05Real(run *ev.Run, cs c05RealCase) {
+	mux := http.NewServeMux()
+	delay := time.Duration(cs.HandlerUs) * time.Microsecond
+	for i := 0; i < cs.Redirects; i++ {
+		next := fmt.Sprintf("/hop%d", i+1)
+		mux.HandleFunc(fmt.Sprintf("/hop%d", i), func(w http.ResponseWriter, r *http.Request) {
+			time.Sleep(delay)
+			http.Redirect(w, r, next, http.StatusFound)
+		})
+	}
+	mux.HandleFunc(fmt.Sprintf("/hop%d", cs.Redirects), func(w http.ResponseWriter, r *http.Request) {
+		time.Sleep(delay)
+		fmt.Fprint(w, "ok")
+	})
+	srv := httptest.NewServer(mux)
+	defer srv.Close()
+	base := time.Now()
+	inner := &http.Transport{MaxConnsPerHost: cs.MaxConns, DisableKeepAlives: !cs.KeepAlive}
+	defer inner.CloseIdleConnections()
+	spy := &spyRT{base: base, inner: inner, first: map[uint64]time.Duration{}, total: map[uint64]time.Duration{}, last: map[uint64]time.Duration{}}
+	p := &recPacer{base: base}
+	p.decide = func(i int, _ time.Duration, _ uint64) (time.Duration, bool) { return 0, i >= cs.Hits }
+	atk := vegeta.NewAttacker(vegeta.Client(&http.Client{Transport: spy}), vegeta.Workers(cs.Workers), vegeta.MaxWorkers(cs.Workers))
+	var got []*vegeta.Result
+	done := make(chan struct{})
+	results := atk.Attack(vegeta.NewStaticTargeter(vegeta.Target{Method: "GET", URL: srv.URL + "/hop0"}), p, 0, "c05real")
+	go func() {
+		defer close(done)
+		for r := range results {
+			got = append(got, r)
+		}
+	}()
+	if st, _ := awaitEnd(done, 180*time.Second); st != endClosed {
+		run.Inconclusive("C05 real-transport attack did not end")
+		return
+	}
+	run.Eval(1)
+	run.Count("real_transport_attacks", 1)
+	run.Count("real_transport_results", int64(len(got)))
+	viol := func(clause, note string, r *vegeta.Result) {
+		run.Violate("C05/"+clause+"/real-transport", fmt.Sprintf("%+v: %s", cs, note), map[string]any{"real_case": cs, "note": note, "result": resBrief(r, base)})
+	}
+	okHits := 0
+	for _, r := range got {
+		ts := r.Timestamp.Sub(base)
+		first, seen := spy.first[r.Seq]
+		if !seen {
+			continue
+		}
+		if r.Error == "" {
+			okHits++
+		}
+		if ts > first {
+			viol("timestamp-after-transport-entry", fmt.Sprintf("seq %d timestamp %v after its first transport entry %v", r.Seq, ts, first), r)
+			break
+		}
+		if r.Latency < spy.total[r.Seq] {
+			viol("latency-too-small", fmt.Sprintf("seq %d latency %v is less than the %v its request spent in the transport (%d redirect hops, conn limit %d)", r.Seq, r.Latency, spy.total[r.Seq], cs.Redirects, cs.MaxConns), r)
+			break
+		}
+		if ts+r.Latency < spy.last[r.Seq] {
+			viol("end-before-transport-returned", fmt.Sprintf("seq %d ends at %v, its last transport call returned at %v", r.Seq, ts+r.Latency, spy.last[r.Seq]), r)
+			break
+		}
+	}
+	run.Count("real_transport_hits_ok", int64(okHits))
+	b, _ := json.Marshal(cs)
+	run.Distinct("real:" + string(b))
+	run.Class(fmt.Sprintf("real-transport/redirects-%d/conns-%d", cs.Redirects, cs.MaxConns))
+}
+
 func runC05(c *Ctx) int {
 	if c.Child != nil {
 		run := ev.NewChildRun("C05", c.Tier)
@@ -195,6 +306,13 @@ func runC05(c *Ctx) int {
 			b, _ := json.Marshal(cs)
 			logCase(string(b))
 			runC05Case(run, cs)
+		}
+		for i := 0; i < 4; i++ {
+			rc := c05RealCase{Workers: []uint64{1, 4, 8, 16}[rng.Intn(4)], MaxConns: []int{0, 1, 2}[rng.Intn(3)], Hits: 150,
+				HandlerUs: []int{0, 500, 2000}[rng.Intn(3)], Redirects: []int{0, 0, 2, 3}[rng.Intn(4)], KeepAlive: rng.Intn(3) != 0}
+			b, _ := json.Marshal(rc)
+			logCase(string(b))
+			runC05Real(run, rc)
 		}
 		fmt.Println(run.BlobLine())
 		return 0
@@ -235,6 +353,7 @@ func runC05(c *Ctx) int {
 	run.Floor("attacks", int64(shards*per*9/10))
 	run.Floor("results", int64(shards*per*20000*9/10))
 	run.Floor("results_arriving_out_of_seq_order", 1000)
+	run.Floor("real_transport_hits_ok", int64(shards*4*150/2))
 	run.FloorDistinct(shards * per / 2)
 	return run.Finish()
 }
